@@ -45,6 +45,7 @@ int rc_key_admissible(const vk_t *k, jwt_alg_t alg);
 
 /* count libcrypto allocations too (call first thing in main, before any OpenSSL use); returns 1 if installed */
 int rc_track_alloc(void);
+extern void (*rc_alloc_hook)(void);   /* before each libcrypto allocation call made directly by libjwt code */
 long rc_alloc_live(void);
 /* live blocks of libjwt+jansson (vf allocator) plus libcrypto (when tracked) */
 long vk_live(void);
